@@ -25,12 +25,8 @@ def Player.chips (p : Player) : Int × Int × Int × Int × Int :=
 theorem PInv_of_chips {p q : Player} (h : q.chips = p.chips) (hp : PInv p) : PInv q := by
   simp [Player.chips] at h
   obtain ⟨h1, h2, h3, h4, h5⟩ := h
-  constructor <;> (first | rw [h1, h3, h5, h4] | rw [h3] | rw [h5] | rw [h4] | rw [h3, h2, h5])
-  · exact hp.split
-  · exact hp.stack0
-  · exact hp.wager0
-  · exact hp.pot0
-  · exact hp.rebase
+  exact ⟨by rw [h1, h3, h5, h4]; exact hp.split, by rw [h3]; exact hp.stack0, by rw [h5]; exact hp.wager0,
+    by rw [h4]; exact hp.pot0, by rw [h3, h2, h5]; exact hp.rebase⟩
 
 /-- Group A: invariants that every function of the chain preserves. -/
 structure ChipsOK (g : Game) : Prop where
@@ -40,17 +36,44 @@ structure ChipsOK (g : Game) : Prop where
   prev0 : 0 ≤ g.prev
   wle : ∀ p ∈ g.players, p.wager ≤ g.cw
 
-/-- a function on games that leaves every chip field alone -/
+/-- the fields of a player no function of the chain except `pay` and the two resets changes -/
+def Player.frame (p : Player) : (Nat × Bool × Bool × Bool) × (Int × Int × Int × Int × Int) :=
+  ((p.idx, p.posDealer, p.posSB, p.posBB), p.chips)
+
+/-- structural facts: seat `i` holds the player with `idx = i`, and the seat to act exists -/
+structure Struct (g : Game) : Prop where
+  idx : ∀ (i : Nat) (p : Player), g.players[i]? = some p → p.idx = i
+  pos : 0 < g.n
+  cur : g.cur < g.n
+
+/-- a function on games that leaves every chip field (and the static configuration) alone
+    and keeps the structural facts -/
 structure NoChip (g g' : Game) : Prop where
-  chips : g'.players.map Player.chips = g.players.map Player.chips
+  struct : Struct g → Struct g'
+  frame : g'.players.map Player.frame = g.players.map Player.frame
+  opts : g'.opts = g.opts
+  mini : g'.miniBet = g.miniBet
   rp : g'.roundPot = g.roundPot
   cw : g'.cw = g.cw
   prev : g'.prev = g.prev
 
-theorem NoChip.refl (g : Game) : NoChip g g := ⟨rfl, rfl, rfl, rfl⟩
+theorem struct_same {g g' : Game} (hp : g'.players = g.players) (hc : g'.cur = g.cur) (h : Struct g) : Struct g' :=
+  ⟨by rw [hp]; exact h.idx, by simp only [Game.n, hp]; exact h.pos, by simp only [Game.n, hp, hc]; exact h.cur⟩
+
+theorem NoChip.refl (g : Game) : NoChip g g := ⟨id, rfl, rfl, rfl, rfl, rfl, rfl⟩
 
 theorem NoChip.trans {a b c : Game} (h1 : NoChip a b) (h2 : NoChip b c) : NoChip a c :=
-  ⟨h2.chips.trans h1.chips, h2.rp.trans h1.rp, h2.cw.trans h1.cw, h2.prev.trans h1.prev⟩
+  ⟨h2.struct ∘ h1.struct, h2.frame.trans h1.frame, h2.opts.trans h1.opts, h2.mini.trans h1.mini, h2.rp.trans h1.rp,
+   h2.cw.trans h1.cw, h2.prev.trans h1.prev⟩
+
+theorem NoChip.chips {g g' : Game} (h : NoChip g g') :
+    g'.players.map Player.chips = g.players.map Player.chips := by
+  have := congrArg (List.map Prod.snd) h.frame
+  simpa [List.map_map, Function.comp_def, Player.frame] using this
+
+theorem NoChip.length {g g' : Game} (h : NoChip g g') : g'.n = g.n := by
+  have := congrArg List.length h.frame
+  simpa [Game.n] using this
 
 theorem map_wager_of_chips {l l' : List Player} (h : l'.map Player.chips = l.map Player.chips) :
     l'.map (·.wager) = l.map (·.wager) := by
@@ -82,61 +105,107 @@ theorem ChipsOK.of_noChip {g g' : Game} (h : NoChip g g') (ok : ChipsOK g) : Chi
 
 /-! ### primitives that do not touch chips -/
 
-theorem noChip_modP (g : Game) (i : Nat) (f : Player → Player) (hf : ∀ p, (f p).chips = p.chips) :
+theorem frame_idx {p q : Player} (h : q.frame = p.frame) : q.idx = p.idx := by
+  simp [Player.frame] at h; exact h.1.1
+
+theorem struct_of_players {g g' : Game} (hl : g'.players.map Player.frame = g.players.map Player.frame)
+    (hc : g'.cur < g.n) (h : Struct g) : Struct g' := by
+  have hn : g'.n = g.n := by simpa [Game.n] using congrArg List.length hl
+  refine ⟨?_, by rw [hn]; exact h.pos, by rw [hn]; exact hc⟩
+  intro i p hp
+  have h1 : (g'.players.map Player.frame)[i]? = some p.frame := by simp [hp]
+  rw [hl] at h1
+  simp at h1
+  obtain ⟨q, hq, hqe⟩ := h1
+  rw [← h.idx i q hq]
+  exact (frame_idx hqe).symm
+
+theorem noChip_modP (g : Game) (i : Nat) (f : Player → Player) (hf : ∀ p, (f p).frame = p.frame) :
     NoChip g (g.modP i f) :=
-  ⟨by simp [Game.modP, map_modify_of_proj Player.chips f hf], rfl, rfl, rfl⟩
+  have hl : (g.modP i f).players.map Player.frame = g.players.map Player.frame := by
+    simp [Game.modP, map_modify_of_proj Player.frame f hf]
+  ⟨fun h => struct_of_players hl h.cur h, hl, rfl, rfl, rfl, rfl, rfl⟩
 
-theorem noChip_mapP (g : Game) (f : Player → Player) (hf : ∀ p, (f p).chips = p.chips) :
+theorem noChip_mapP (g : Game) (f : Player → Player) (hf : ∀ p, (f p).frame = p.frame) :
     NoChip g (g.mapP f) :=
-  ⟨by simp [Game.mapP, List.map_map, Function.comp_def, hf], rfl, rfl, rfl⟩
+  have hl : (g.mapP f).players.map Player.frame = g.players.map Player.frame := by
+    simp [Game.mapP, List.map_map, Function.comp_def, hf]
+  ⟨fun h => struct_of_players hl h.cur h, hl, rfl, rfl, rfl, rfl, rfl⟩
 
-theorem noChip_setCurrentPlayer (g : Game) (i : Nat) : NoChip g (g.setCurrentPlayer i) := by
-  unfold Game.setCurrentPlayer
-  refine NoChip.trans (noChip_modP g g.cur _ (fun p => rfl)) ?_
-  exact NoChip.trans (b := { g.modP g.cur (fun p => { p with allowed := [] }) with cur := i }) ⟨rfl, rfl, rfl, rfl⟩
-    (noChip_modP _ i _ (fun p => rfl))
+theorem dealerIdx_lt {g : Game} (h : Struct g) : g.dealerIdx < g.n := by
+  unfold Game.dealerIdx Game.dealerIdx?
+  cases hf : g.players.reverse.find? (·.posDealer) with
+  | none => simpa using h.pos
+  | some p =>
+    simp only [Option.map_some, Option.getD_some]
+    have hm : p ∈ g.players := by
+      have := List.mem_of_find?_eq_some hf
+      simpa using this
+    obtain ⟨i, hi, hpi⟩ := List.getElem_of_mem hm
+    have : g.players[i]? = some p := by simp [List.getElem?_eq_getElem hi, hpi]
+    rw [h.idx i p this]; exact hi
 
-theorem noChip_resetAllAllowed (g : Game) : NoChip g g.resetAllAllowed :=
-  noChip_mapP g _ (fun _ => rfl)
+theorem nextIdx_lt {g : Game} (h : Struct g) : g.nextIdx < g.n := by
+  unfold Game.nextIdx
+  have := h.cur; have := h.pos
+  split <;> omega
 
-theorem noChip_resetActed (g : Game) : NoChip g g.resetActed :=
-  noChip_mapP g _ (fun _ => rfl)
+theorem noChip_setEvent (g : Game) (e : Ev) : NoChip g (g.setEvent e) := ⟨struct_same rfl rfl, rfl, rfl, rfl, rfl, rfl, rfl⟩
+theorem noChip_setRound (g : Game) (r : Round) : NoChip g (g.setRound r) := ⟨struct_same rfl rfl, rfl, rfl, rfl, rfl, rfl, rfl⟩
+theorem noChip_setCur (g : Game) (i : Nat) (hi : Struct g → i < g.n) : NoChip g (g.setCur i) :=
+  ⟨fun h => ⟨h.idx, h.pos, hi h⟩, rfl, rfl, rfl, rfl, rfl, rfl⟩
+theorem noChip_setRaiser (g : Game) (i : Nat) : NoChip g (g.setRaiser i) := ⟨struct_same rfl rfl, rfl, rfl, rfl, rfl, rfl, rfl⟩
 
-theorem noChip_becomeRaiser (g : Game) (i : Nat) : NoChip g (g.becomeRaiser i) := by
-  unfold Game.becomeRaiser
-  exact NoChip.trans (b := ({ g with raiser := i } : Game).resetActed)
-    (NoChip.trans (b := ({ g with raiser := i } : Game)) ⟨rfl, rfl, rfl, rfl⟩ (noChip_resetActed _))
-    (noChip_modP _ i _ (fun _ => rfl))
+theorem noChip_offer (g : Game) (i : Nat) : NoChip g (g.offer i) := noChip_modP g i _ (fun _ => rfl)
 
-theorem noChip_setActed (g : Game) (i : Nat) : NoChip g (g.setActed i) :=
-  noChip_modP g i _ (fun _ => rfl)
+theorem noChip_setCurrentPlayer (g : Game) (i : Nat) (hi : Struct g → i < g.n) : NoChip g (g.setCurrentPlayer i) :=
+  have h1 := noChip_modP g g.cur clearAllowed (fun _ => rfl)
+  (h1.trans (noChip_setCur _ i (fun h => by
+    rw [h1.length]; exact hi ⟨fun j p hp => by
+      have := h.idx j
+      simp only [Game.modP, List.getElem?_modify] at this
+      cases hq : g.players[j]? with
+      | none => rw [hq] at hp; cases hp
+      | some q =>
+        rw [hq] at hp; cases hp
+        have := this (if g.cur = j then clearAllowed p else p) (by simp [hq])
+        split at this <;> simpa [clearAllowed] using this,
+      by rw [← h1.length]; exact h.pos, by rw [← h1.length]; exact h.cur⟩))).trans (noChip_offer _ i)
 
-theorem noChip_updatePots (g : Game) : NoChip g g.updatePots := ⟨rfl, rfl, rfl, rfl⟩
+theorem noChip_setCurrentPlayer_next (g : Game) : NoChip g (g.setCurrentPlayer g.nextIdx) :=
+  noChip_setCurrentPlayer g _ (fun h => nextIdx_lt h)
 
-theorem noChip_deal (g : Game) (k : Nat) : NoChip g (g.deal k).2 := ⟨rfl, rfl, rfl, rfl⟩
-theorem noChip_burn (g : Game) (k : Nat) : NoChip g (g.burn k) := ⟨rfl, rfl, rfl, rfl⟩
-theorem noChip_dealBoard (g : Game) (k : Nat) : NoChip g (g.dealBoard k) := ⟨rfl, rfl, rfl, rfl⟩
+theorem noChip_setCurrentPlayer_dealer (g : Game) : NoChip g (g.setCurrentPlayer g.dealerIdx) :=
+  noChip_setCurrentPlayer g _ (fun h => dealerIdx_lt h)
+
+theorem noChip_resetAllAllowed (g : Game) : NoChip g g.resetAllAllowed := noChip_mapP g _ (fun _ => rfl)
+theorem noChip_resetActed (g : Game) : NoChip g g.resetActed := noChip_mapP g _ (fun _ => rfl)
+theorem noChip_setActed (g : Game) (i : Nat) : NoChip g (g.setActed i) := noChip_modP g i _ (fun _ => rfl)
+
+theorem noChip_becomeRaiser (g : Game) (i : Nat) : NoChip g (g.becomeRaiser i) :=
+  ((noChip_setRaiser g i).trans (noChip_resetActed _)).trans (noChip_setActed _ i)
+
+theorem noChip_updatePots (g : Game) : NoChip g g.updatePots := ⟨struct_same rfl rfl, rfl, rfl, rfl, rfl, rfl, rfl⟩
+theorem noChip_advance (g : Game) (k : Nat) : NoChip g (g.advance k) := ⟨struct_same rfl rfl, rfl, rfl, rfl, rfl, rfl, rfl⟩
+theorem noChip_burn (g : Game) (k : Nat) : NoChip g (g.burn k) := ⟨struct_same rfl rfl, rfl, rfl, rfl, rfl, rfl, rfl⟩
+theorem noChip_dealBoard (g : Game) (k : Nat) : NoChip g (g.dealBoard k) := ⟨struct_same rfl rfl, rfl, rfl, rfl, rfl, rfl, rfl⟩
+theorem noChip_dealHole (g : Game) (i : Nat) : NoChip g (g.dealHole i) :=
+  (noChip_advance g _).trans (noChip_modP _ i _ (fun _ => rfl))
 
 theorem noChip_dealHoles : ∀ (k i : Nat) (g : Game), NoChip g (dealHoles k i g)
   | 0, _, g => NoChip.refl g
-  | k + 1, i, g => by
-    unfold Game.dealHoles
-    exact NoChip.trans (NoChip.trans (noChip_deal g _) (noChip_modP _ i _ (fun _ => rfl))) (noChip_dealHoles k (i + 1) _)
+  | k + 1, i, g => (noChip_dealHole g i).trans (noChip_dealHoles k (i + 1) _)
 
-theorem noChip_updateCombinations (g : Game) : NoChip g g.updateCombinations := by
-  unfold Game.updateCombinations
-  apply noChip_mapP
-  intro p
-  split
-  · rfl
-  · split <;> rfl
+theorem newComb_frame (p : Player) (pw : Option Power) : (newComb p pw).frame = p.frame := by
+  unfold Game.newComb; split <;> rfl
 
-theorem noChip_calculateGameResults (g : Game) : NoChip g g.calculateGameResults := ⟨rfl, rfl, rfl, rfl⟩
+theorem noChip_updateCombinations (g : Game) : NoChip g g.updateCombinations :=
+  noChip_mapP g _ (fun p => newComb_frame p _)
 
-theorem noChip_roundClosed (g : Game) : NoChip g g.roundClosed := by
-  unfold Game.roundClosed
-  exact NoChip.trans (NoChip.trans (b := ({ g with event := .roundClosed } : Game)) ⟨rfl, rfl, rfl, rfl⟩
-    (noChip_resetAllAllowed _)) (noChip_updatePots _)
+theorem noChip_calculateGameResults (g : Game) : NoChip g g.calculateGameResults := ⟨struct_same rfl rfl, rfl, rfl, rfl, rfl, rfl, rfl⟩
+
+theorem noChip_roundClosed (g : Game) : NoChip g g.roundClosed :=
+  ((noChip_setEvent g _).trans (noChip_resetAllAllowed _)).trans (noChip_updatePots _)
 
 theorem noChip_requestPlayerAction (g : Game) : NoChip g g.requestPlayerAction := by
   unfold Game.requestPlayerAction
@@ -148,11 +217,10 @@ theorem noChip_requestPlayerAction (g : Game) : NoChip g g.requestPlayerAction :
       · exact NoChip.refl g
       · split
         · exact noChip_roundClosed g
-        · exact noChip_setCurrentPlayer g _
+        · exact noChip_setCurrentPlayer_next g
 
-theorem noChip_requestReady (g : Game) : NoChip g g.requestReady := by
-  unfold Game.requestReady
-  exact NoChip.trans (noChip_resetAllAllowed g) ⟨rfl, rfl, rfl, rfl⟩
+theorem noChip_requestReady (g : Game) : NoChip g g.requestReady :=
+  (noChip_resetAllAllowed g).trans (noChip_setEvent _ _)
 
 theorem noChip_prepareRound (g : Game) : NoChip g g.prepareRound := by
   unfold Game.prepareRound
@@ -165,71 +233,57 @@ theorem noChip_prepareRound (g : Game) : NoChip g g.prepareRound := by
 theorem noChip_requestBlinds (g : Game) : NoChip g g.requestBlinds := by
   unfold Game.requestBlinds
   split
-  · exact NoChip.trans (b := ({ g with event := .blindsPaid } : Game)) ⟨rfl, rfl, rfl, rfl⟩ (noChip_prepareRound _)
-  · exact ⟨rfl, rfl, rfl, rfl⟩
+  · exact (noChip_setEvent g _).trans (noChip_prepareRound _)
+  · exact noChip_setEvent g _
 
-theorem noChip_initializeRound (g : Game) : NoChip g g.initializeRound := by
-  unfold Game.initializeRound
-  have h1 : NoChip g (match g.round with
-      | .preflop => dealHoles g.n 0 g
-      | .flop => ((g.burn 1).dealBoard 3).setCurrentPlayer g.dealerIdx
-      | .turn => ((g.burn 1).dealBoard 1).setCurrentPlayer g.dealerIdx
-      | .river => ((g.burn 1).dealBoard 1).setCurrentPlayer g.dealerIdx
-      | .none => g) := by
-    split
-    · exact noChip_dealHoles _ _ _
-    · exact NoChip.trans (NoChip.trans (noChip_burn g 1) (noChip_dealBoard _ 3)) (noChip_setCurrentPlayer _ _)
-    · exact NoChip.trans (NoChip.trans (noChip_burn g 1) (noChip_dealBoard _ 1)) (noChip_setCurrentPlayer _ _)
-    · exact NoChip.trans (NoChip.trans (noChip_burn g 1) (noChip_dealBoard _ 1)) (noChip_setCurrentPlayer _ _)
-    · exact NoChip.refl g
-  refine NoChip.trans h1 ?_
-  generalize (match g.round with
-      | .preflop => dealHoles g.n 0 g
-      | .flop => ((g.burn 1).dealBoard 3).setCurrentPlayer g.dealerIdx
-      | .turn => ((g.burn 1).dealBoard 1).setCurrentPlayer g.dealerIdx
-      | .river => ((g.burn 1).dealBoard 1).setCurrentPlayer g.dealerIdx
-      | .none => g) = g1
-  refine NoChip.trans (noChip_updateCombinations g1) ?_
-  generalize g1.updateCombinations = g2
-  simp only
+theorem noChip_dealStreet (g : Game) : NoChip g g.dealStreet := by
+  unfold Game.dealStreet
   split
-  · exact NoChip.trans (b := ({ g2 with event := .roundInitialized } : Game)) ⟨rfl, rfl, rfl, rfl⟩ (noChip_requestBlinds _)
-  · exact NoChip.trans (b := ({ g2 with event := .roundInitialized } : Game)) ⟨rfl, rfl, rfl, rfl⟩ (noChip_prepareRound _)
+  · exact noChip_dealHoles _ _ _
+  · exact ((noChip_burn g 1).trans (noChip_dealBoard _ 3)).trans (noChip_setCurrentPlayer_dealer ((g.burn 1).dealBoard 3))
+  · exact ((noChip_burn g 1).trans (noChip_dealBoard _ 1)).trans (noChip_setCurrentPlayer_dealer ((g.burn 1).dealBoard 1))
+  · exact ((noChip_burn g 1).trans (noChip_dealBoard _ 1)).trans (noChip_setCurrentPlayer_dealer ((g.burn 1).dealBoard 1))
+  · exact NoChip.refl g
 
-theorem noChip_enterRound (g : Game) (r : Round) : NoChip g (g.enterRound r) := by
-  unfold Game.enterRound
-  exact NoChip.trans (b := ({ g with round := r } : Game)) ⟨rfl, rfl, rfl, rfl⟩ (noChip_initializeRound _)
+theorem noChip_afterRoundInitialized (g : Game) : NoChip g g.afterRoundInitialized := by
+  unfold Game.afterRoundInitialized
+  split
+  · exact noChip_requestBlinds g
+  · exact noChip_prepareRound g
+
+theorem noChip_initializeRound (g : Game) : NoChip g g.initializeRound :=
+  (((noChip_dealStreet g).trans (noChip_updateCombinations _)).trans (noChip_setEvent _ _)).trans
+    (noChip_afterRoundInitialized _)
+
+theorem noChip_enterRound (g : Game) (r : Round) : NoChip g (g.enterRound r) :=
+  (noChip_setRound g r).trans (noChip_initializeRound _)
 
 theorem noChip_seekBB : ∀ (k : Nat) (g : Game), NoChip g (seekBB k g)
   | 0, g => NoChip.refl g
   | k + 1, g => by
     unfold Game.seekBB
-    simp only
     split
     · split
-      · exact noChip_setCurrentPlayer g _
-      · exact NoChip.trans (noChip_setCurrentPlayer g _) (noChip_seekBB k _)
-    · exact noChip_setCurrentPlayer g _
+      · exact noChip_setCurrentPlayer_next g
+      · exact (noChip_setCurrentPlayer_next g).trans (noChip_seekBB k _)
+    · exact noChip_setCurrentPlayer_next g
 
-theorem noChip_startRound (g : Game) : NoChip g g.startRound := by
-  unfold Game.startRound
-  simp only
+theorem noChip_openRound (g : Game) : NoChip g g.openRound :=
+  (noChip_setEvent g _).trans (noChip_requestPlayerAction _)
+
+theorem noChip_startRound' (g : Game) : NoChip g g.startRound' := by
+  unfold Game.startRound'
   split
   · split
-    · exact NoChip.trans (noChip_resetAllAllowed g) (noChip_roundClosed _)
-    · refine NoChip.trans (noChip_resetAllAllowed g) ?_
-      refine NoChip.trans (noChip_setCurrentPlayer _ _) ?_
-      refine NoChip.trans (noChip_seekBB _ _) ?_
-      exact NoChip.trans (b := ({ seekBB g.resetAllAllowed.n (g.resetAllAllowed.setCurrentPlayer g.resetAllAllowed.dealerIdx) with event := .roundStarted } : Game))
-        ⟨rfl, rfl, rfl, rfl⟩ (noChip_requestPlayerAction _)
-  · refine NoChip.trans (noChip_resetAllAllowed g) ?_
-    refine NoChip.trans (noChip_setCurrentPlayer _ _) ?_
-    exact NoChip.trans (b := ({ g.resetAllAllowed.setCurrentPlayer g.resetAllAllowed.dealerIdx with event := .roundStarted } : Game))
-      ⟨rfl, rfl, rfl, rfl⟩ (noChip_requestPlayerAction _)
+    · exact noChip_roundClosed g
+    · exact ((noChip_setCurrentPlayer_dealer g).trans (noChip_seekBB _ _)).trans (noChip_openRound _)
+  · exact (noChip_setCurrentPlayer_dealer g).trans (noChip_openRound _)
 
-theorem noChip_gameCompleted (g : Game) : NoChip g g.gameCompleted := by
-  unfold Game.gameCompleted
-  exact ⟨rfl, rfl, rfl, rfl⟩
+theorem noChip_startRound (g : Game) : NoChip g g.startRound :=
+  (noChip_resetAllAllowed g).trans (noChip_startRound' _)
+
+theorem noChip_gameCompleted (g : Game) : NoChip g g.gameCompleted :=
+  ((noChip_updatePots g).trans (noChip_calculateGameResults _)).trans (noChip_setEvent _ _)
 
 theorem noChip_resume (g : Game) : NoChip g g.resume := by
   unfold Game.resume
